@@ -1193,7 +1193,10 @@ aiff_rewrite_header (SF_PRIVATE *psf)
 
 	/* COMM chunk. */
 	if ((k = psf_find_read_chunk_m32 (&psf->rchunks, COMM_MARKER)) >= 0)
-	{	psf->header.indx = psf->rchunks.chunks [k].offset - 8 ;
+	{	/* The recorded offset comes from psf_ftell () at parse time: make sure it lies inside the header. */
+		if (psf->rchunks.chunks [k].offset < 8 || psf->rchunks.chunks [k].offset > header_len)
+			return SFE_INTERNAL ;
+		psf->header.indx = psf->rchunks.chunks [k].offset - 8 ;
 		comm_frames = psf->sf.frames ;
 		comm_size = psf->rchunks.chunks [k].len ;
 		psf_binheader_writef (psf, "Em42t4", BHWm (COMM_MARKER), BHW4 (comm_size), BHW2 (psf->sf.channels), BHW4 (comm_frames)) ;
@@ -1201,7 +1204,10 @@ aiff_rewrite_header (SF_PRIVATE *psf)
 
 	/* PEAK chunk. */
 	if ((k = psf_find_read_chunk_m32 (&psf->rchunks, PEAK_MARKER)) >= 0)
-	{	psf->header.indx = psf->rchunks.chunks [k].offset - 8 ;
+	{	/* The recorded offset comes from psf_ftell () at parse time: make sure it lies inside the header. */
+		if (psf->rchunks.chunks [k].offset < 8 || psf->rchunks.chunks [k].offset > header_len)
+			return SFE_INTERNAL ;
+		psf->header.indx = psf->rchunks.chunks [k].offset - 8 ;
 		psf_binheader_writef (psf, "Em4", BHWm (PEAK_MARKER), BHW4 (AIFF_PEAK_CHUNK_SIZE (psf->sf.channels))) ;
 		psf_binheader_writef (psf, "E44", BHW4 (1), BHW4 (time (NULL))) ;
 		for (ch = 0 ; ch < psf->sf.channels ; ch++)
@@ -1211,7 +1217,10 @@ aiff_rewrite_header (SF_PRIVATE *psf)
 
 	/* SSND chunk. */
 	if ((k = psf_find_read_chunk_m32 (&psf->rchunks, SSND_MARKER)) >= 0)
-	{	psf->header.indx = psf->rchunks.chunks [k].offset - 8 ;
+	{	/* The recorded offset comes from psf_ftell () at parse time: make sure it lies inside the header. */
+		if (psf->rchunks.chunks [k].offset < 8 || psf->rchunks.chunks [k].offset > header_len)
+			return SFE_INTERNAL ;
+		psf->header.indx = psf->rchunks.chunks [k].offset - 8 ;
 		psf_binheader_writef (psf, "Etm8", BHWm (SSND_MARKER), BHW8 (psf->datalength + SIZEOF_SSND_CHUNK)) ;
 		} ;
 
